@@ -123,6 +123,7 @@ def c03_clauses(case, truth, rec, par):
     return out, info
   must = [f for f in feas if not f['omittable'] and not f['ambiguous']]
   feas_map = {(tuple(f['t']), tuple(f['c'])): f for f in feas}
+  unscorable = {(tuple(T), tuple(C)) for T, C in bf.get('unscorable', [])}
   keys = [sl.design_key(d) for d in ds]
   if len(set(keys)) != len(keys):
     out.append(V('distinct', 'exh:duplicate-designs', 'exhaustive_search returned duplicate designs: %s' % keys))
@@ -135,7 +136,7 @@ def c03_clauses(case, truth, rec, par):
                      len(ds), k, len(must), must[0]['t'], must[0]['c'])))
   # returned designs must be feasible (cross-check of C01/C02 through the design space)
   for pos, d in enumerate(ds):
-    if sl.design_key(d) not in feas_map:
+    if sl.design_key(d) not in feas_map and sl.design_key(d) not in unscorable:
       out.append(V('feasible', 'exh:infeasible-design-returned',
                    'design #%d T=%s C=%s is not in the feasible design space of the oracle' % (pos, d['t'], d['c'])))
   # (c) order
@@ -190,7 +191,14 @@ def c04_clauses(case, truth, rec, which, par):
     if nd.get('x') is None or not nd['t'] or not nd['c']:
       out.append(V('diag', which + ':diag-missing', 'design #%d has no diagnostics / control series' % pos))
       continue
-    rc = sl.recompute(truth, nd, par, budget_scoring=budget_scoring)
+    if any(gid not in truth.window for gid in nd['t'] + nd['c']):
+      out.append(V('ids', which + ':design-geo-not-in-data', 'design #%d reports geos that are not in the data: T=%s C=%s' % (pos, nd['t'], nd['c'])))
+      continue
+    try:
+      rc = sl.recompute(truth, nd, par, budget_scoring=budget_scoring)
+    except ValueError as e:
+      out.append(V('recompute', which + ':design-not-recomputable', 'design #%d T=%s C=%s cannot be recomputed from its reported geos: %s' % (pos, nd['t'], nd['c'], e)))
+      continue
     n_checked += 1
     tolg = 1e-12 * max(1, len(nd['t']) + len(nd['c']))
     scale = float(np.abs(rc['y']).max()) + 1e-300
